@@ -137,13 +137,15 @@ def _instrument(gate, flags):
         flags["simplified_diag"] = None
 
 
-def eval_case(ctx, cls_name, n, t, preserve, fam, vec):
-    """True iff the property holds for this case."""
+def eval_case(ctx, cls_name, n, t, preserve, fam, vec, real_dtype=False):
+    """True iff the property holds for this case.  real_dtype: a real-valued vector handed over as a float64 array."""
     vec = np.asarray(vec, dtype=complex)
-    case = {"class": cls_name, "n": n, "t": t, "preserve": bool(preserve), "family": fam, "vector": jsonable(vec)}
+    case = {"class": cls_name, "n": n, "t": t, "preserve": bool(preserve), "family": fam, "vector": jsonable(vec),
+            "real_dtype": bool(real_dtype)}
     flags = {}
     try:
-        gate = _cls(cls_name)(vec, opt_params={"target_state": t, "preserve_previous": preserve})
+        arg = np.array(np.real(vec), dtype=float) if real_dtype else vec
+        gate = _cls(cls_name)(arg, opt_params={"target_state": t, "preserve_previous": preserve})
         if cls_name == "UCGEInitialize":
             _instrument(gate, flags)
         circ = gate.definition
@@ -199,9 +201,12 @@ def evaluate(ctx, deep):
                                       sample={"class": cls_name, "n": n, "t": t, "preserve": preserve,
                                               "vector": [complex(np.round(x, 3)) for x in vec]} if (n == 3 and t == 5) else None)
                             eval_case(ctx, cls_name, n, t, preserve, fam, vec)
+                            if n <= 4 and float(np.abs(np.imag(vec)).max()) == 0.0:
+                                ctx.count(f"{cls_name}:{fam}:real_dtype", key=(cls_name, n, t, preserve, fam, vec.tobytes(), "real"), nontrivial=True)
+                                eval_case(ctx, cls_name, n, t, preserve, fam, vec, real_dtype=True)
 
 
 def replay(ctx, case):
     vec = unjson_array(case["vector"]).astype(complex)
     return eval_case(ctx, case["class"], int(case["n"]), int(case["t"]), bool(case["preserve"]),
-                     case.get("family", "replay"), vec)
+                     case.get("family", "replay"), vec, real_dtype=bool(case.get("real_dtype", False)))
